@@ -44,6 +44,21 @@ func TestC02RelDowngrade(t *testing.T) {
 	expect(t, "C02-rel-downgrade", out, err, `href="//evil.example/x.css"`)
 }
 
+type recNode struct {
+	T *recNode
+	X string
+}
+
+func TestC01FixedPointStartContext(t *testing.T) {
+	out, err := render(t, `<a href="{{template "y" .}}{{.X}}<<{{define "y"}}>{{if .T}}{{template "y" .T}}{{end}}"{{end}}`, &recNode{X: " onmouseover=alert(1) "})
+	expect(t, "C01-fixedpoint-start-context", out, err, `<a href=">" onmouseover=alert(1) `)
+}
+
+func TestC04LinkRelGluedToken(t *testing.T) {
+	out, err := render(t, `<link rel="{{if .C}}x{{end}}icon stylesheet" href="{{.U}}">`, map[string]interface{}{"C": true, "U": "//evil.example/x.css"})
+	expect(t, "C04-linkrel-glued-token", out, err, `rel="xicon stylesheet" href="//evil.example/x.css"`)
+}
+
 func TestC03HTMLInAttr(t *testing.T) {
 	h := uncheckedconversions.HTMLFromStringKnownToSatisfyTypeContract(`a" onmouseover="alert(1)`)
 	out, err := render(t, `<div title="{{.H}}">x</div>`, map[string]interface{}{"H": h})
